@@ -123,7 +123,7 @@ def check(ctx):
 
     # ------------------------------------------------------------------------------------------------ same day key
     o = ctx.ob('ledger_day_key', 'R10',
-               "the ledger stores midnight(day) and both query branches compare the stored day with midnight(day) and the resource", floor=3)
+               "the ledger stores midnight(day) and both query branches compare the stored day with midnight(day) and the resource", floor=2)
 
     ctx.guarded(o, lambda o: ledger_shape(ctx, o))
 
@@ -356,7 +356,8 @@ def ledger_shape(ctx, o):
     rows = [c for c in walk_no_nested(rf.node) if isinstance(c, ast.Call) and isinstance(c.func, ast.Name)
             and c.func.id == 'ResourceUsageRow']
     appended = [c for c in facts.calls_named(rf, 'append')]
-    if len(rows) != 1 or len(appended) != 1 or not any(x is rows[0] for x in ast.walk(appended[0])):
+    app_arg = ex.expand(appended[0].args[0]) if len(appended) == 1 and appended[0].args else None
+    if len(rows) != 1 or len(appended) != 1 or not (isinstance(app_arg, ast.Call) and getattr(app_arg.func, 'id', '') == 'ResourceUsageRow'):
         o.refute(rf, rf.node, 'reserve', "reserve() must append exactly one ResourceUsageRow to the ledger")
         return
     row = ex.expand(rows[0])
@@ -374,54 +375,61 @@ def ledger_shape(ctx, o):
     rets = [n for n in walk_no_nested(rf.node) if isinstance(n, ast.Return)]
     if len(rets) != 1 or not (isinstance(rets[0].value, ast.Name) and rets[0].value.id == p[4]):
         o.refute(rf, rf.node, 'return', "reserve() must return exactly the units it stored (the fill loops subtract the return value)")
-    # query
+    # query: every "collect row.units for row in self.rows if ..." site (comprehension or accumulation loop)
     exq = Expander(prog, qf, ctx.typer)
-    comps = [n for n in walk_no_nested(qf.node) if isinstance(n, (ast.ListComp, ast.GeneratorExp))]
-    if not comps:
-        o.undecided(qf, qf.node, 'reserved', "no comprehension over the ledger rows found")
     qp = qf.params
-    for comp in comps:
-        parts = facts.comp_parts(comp)
-        if parts is None:
-            o.undecided(qf, comp, comp, "multi-generator comprehension")
-            continue
-        elt, tgt, it, ifs = parts
-        if not (isinstance(tgt, ast.Name) and match("$s.rows", it) and match(f"{tgt.id}.units", elt)):
-            o.undecided(qf, comp, comp, "comprehension is not `row.units for row in self.rows if ...`")
+    sites = [c for c in facts.collects(qf) if match("$s.rows", c.iter) and isinstance(c.target, ast.Name)]
+    if not sites:
+        o.undecided(qf, qf.node, 'reserved', "no iteration over the ledger rows found")
+    for c in sites:
+        tgt = c.target
+        if not match(f"{tgt.id}.units", c.elt):
+            o.undecided(qf, c.node, c.node, "iteration over the ledger rows does not collect row.units")
             continue
         atoms = []
-        for c in ifs:
-            atoms += facts.split_conj(exq.expand(c, exq.flow.node_of_expr(comp)), True)
+        for t, pol in c.conds:
+            atoms += facts.split_conj(exq.expand(t, exq.flow.node_of_expr(t) or exq.flow.node_of_expr(c.node)), pol)
         has_res = has_day = False
         extra = []
+        path_extra = [(t, p) for t, p in facts.node_conditions(prog, qf, c.node, ctx.typer, expand=False)]
         for a, pol in atoms:
-            m = match(f"{tgt.id}.resource == $x", a) or match(f"$x == {tgt.id}.resource", a)
-            if m and pol and src(m['x']) == qp[1]:
-                has_res = True
+            eq = ne = None
+            if isinstance(a, ast.Compare) and len(a.ops) == 1 and isinstance(a.ops[0], (ast.Eq, ast.NotEq)):
+                l, r = a.left, a.comparators[0]
+                positive = isinstance(a.ops[0], ast.Eq) == pol      # the collected rows satisfy l == r
+                other = r if match(f"{tgt.id}.$f", l) else (l if match(f"{tgt.id}.$f", r) else None)
+                fld = (match(f"{tgt.id}.$f", l) or match(f"{tgt.id}.$f", r) or {}).get('f')
+                if other is not None and fld == 'resource' and positive and src(other) == qp[1]:
+                    has_res = True
+                    continue
+                if other is not None and fld == 'date' and positive:
+                    dd = facts.is_midnight_of(other)
+                    if dd is not None and src(dd) == qp[2]:
+                        has_day = True
+                    else:
+                        o.refute(qf, c.node, a, f"ledger rows are compared with `{src(other)}` instead of midnight({qp[2]}): "
+                                                f"rows stored under the day key are missed")
+                        has_day = None
+                    continue
+                if other is not None and fld == 'task' and positive and len(qp) > 3 and src(other) == qp[3]:
+                    extra.append('task')
+                    continue
+            # `task is None or row.task == task` style selector inside the filter
+            if len(qp) > 3 and (match(f"{qp[3]} is None or {tgt.id}.task == {qp[3]}", a) and pol or
+                                match(f"{qp[3]} is not None and {tgt.id}.task != {qp[3]}", a) and not pol):
+                extra.append('task-if-given')
                 continue
-            m = match(f"{tgt.id}.date == $x", a) or match(f"$x == {tgt.id}.date", a)
-            if m and pol:
-                dd = facts.is_midnight_of(m['x'])
-                if dd is not None and src(dd) == qp[2]:
-                    has_day = True
-                else:
-                    o.refute(qf, comp, a, f"ledger rows are compared with `{src(m['x'])}` instead of midnight({qp[2]}): "
-                                          f"rows stored under the day key are missed")
-                    has_day = None
+            if len(qp) > 3 and ((match(f"{qp[3]} is None", a) and not pol) or (match(f"{qp[3]} is not None", a) and pol)):
                 continue
-            m = match(f"{tgt.id}.task == $x", a) or match(f"$x == {tgt.id}.task", a)
-            if m and pol and len(qp) > 3 and src(m['x']) == qp[3]:
-                extra.append('task')
-                continue
-            o.undecided(qf, comp, a, "unrecognised row filter")
+            o.undecided(qf, c.node, a, "unrecognised row filter")
         if has_day is None:
             continue
         if not has_res:
-            o.refute(qf, comp, comp, "ledger sum does not filter by resource")
+            o.refute(qf, c.node, c.node, "ledger sum does not filter by resource")
         elif not has_day:
-            o.refute(qf, comp, comp, "ledger sum does not filter by day")
+            o.refute(qf, c.node, c.node, "ledger sum does not filter by day")
         else:
-            o.site(qf, comp, "filters: resource, midnight(day)" + (", task" if extra else ''))
+            o.site(qf, c.node, "filters: resource, midnight(day)" + (", " + extra[0] if extra else ''))
 
 
 def _origin_node(f, amount_expr, sub, ex):
